@@ -2062,6 +2062,14 @@ pub fn tasks(prop: &str, tier: Tier) -> Vec<Task> {
         }
         "C16" => {
             push_all(&mut t, c16_scenarios(if thorough { ns_q } else { &[1] }), thorough);
+            for x in t.iter_mut() {
+                if x.scn.name.starts_with("c16-leaver-vs-full-cycle") {
+                    // a whole reclamation cycle runs inside one operation here:
+                    // c = 4 (4.2e7 schedules and counting) hit the 40-minute
+                    // deadline of the thorough tier
+                    x.c = x.c.min(3);
+                }
+            }
             push_matrix(&mut t, thorough);
         }
         "C17" => {
